@@ -1462,9 +1462,17 @@ def constructor_arguments(repo, run, rule):
     n = 0
     seen = set()
     for tag, e in sorted(table.items()):
-        if e.make is None or id(e.fi) in seen:
+        if id(e.fi) in seen:
             continue
         seen.add(id(e.fi))
+        if e.make is None:
+            # no (single) _make_node call was found: positively a defect only when some path returns without having built anything
+            empty = [p_ for p_ in tr.paths_of(repo, e.fi, no_inline={'_make_node', 'make_node', '_decode_metadata'}, follow_exceptions=False)
+                     if p_.status == 'return' and (p_.ret is None or p_.ret.const is None) and not any(ev.kind == 'call' and ev.callee in ('_make_node', 'make_node') for ev in p_.events)]
+            if empty:
+                run.violation(rule, e.fi, 'constructor of %s' % tag, 'the constructor registered for %s returns None without building a node: every value tagged %s becomes null' % (tag, tag))
+                continue
+            raise AnalysisError('%s: the constructor of %s does not build its node through a single _make_node call' % (rule, tag))
         ps = e.fi.params()
         want = (ps[0], ps[-1]) if len(ps) >= 2 else None
         mk = e.make_event
@@ -1758,6 +1766,72 @@ def first_not_missing_table(repo, run, rule):
         run.violation(rule, fi, 'deepest existing node table', bad[0] + (' [%d rows]' % len(bad) if len(bad) > 1 else '') + ': an existing node that holds a false value is skipped, so pruning compares older nodes with the wrong counterpart', witness=bad[:4])
     else:
         run.ok(rule, fi, 'deepest existing node (%d rows)' % rows, 'existing nodes are found whatever they hold; missing components fall back to the last existing ancestor')
+
+
+def constructor_error_context(repo, run, rule):
+    """the decorator of the tag constructors evaluated for both call shapes PyYAML uses - (loader, node) and (loader, tag suffix,
+    node): the constructor runs inside errors.rethrow_point(ParsingError, <the YAML node>, ...) (so that an error is reported with
+    the position of the offending node), receives the arguments unchanged, and its result is handed back"""
+    fi = repo.func('yaml.rethrow_as_parsing_error')
+    bad = []
+    for shape in ('plain', 'multi'):
+        log = []
+
+        def func(*a, **k):
+            log.append(('func', a, k))
+            return 'RESULT'
+        func._fde_ok = True
+
+        def stub(n, recv, a, k):
+            log.append((n, tuple(a), dict(k)))
+            return Opaque('cm')
+        f = FDE(repo, stubs={'rethrow_point'}, stub=stub)
+        loader, node = Obj('loader', 'AwesomeyamlLoader'), Obj('ynode', 'yaml.Node')
+        args = [loader, node] if shape == 'plain' else [loader, 'suffix', node]
+
+        def go():
+            w = f.call(fi, func)
+            if w.raised:
+                return w
+            return f._apply(w.ret, list(args), {}, None)
+        try:
+            r = fde_guard(go)
+        except Raised as ex:
+            bad.append('%s constructor call raises %s' % (shape, ex.exc))
+            continue
+        if hasattr(r, 'raised') and getattr(r, 'raised', None):
+            bad.append('the decorator itself raises %s' % r.raised)
+            continue
+        rp = [x for x in log if x[0] == 'rethrow_point']
+        fc = [x for x in log if x[0] == 'func']
+        if len(rp) != 1 or len(rp[0][1]) < 2 or rp[0][1][0] != ('class', 'ParsingError') or rp[0][1][1] is not node:
+            bad.append('for a %s constructor call the error context is %s, expected rethrow_point(ParsingError, <the YAML node>, ...)' % (shape, [getattr(v, 'name', v) for v in rp[0][1]] if rp else 'not entered'))
+        elif len(fc) != 1 or list(fc[0][1]) != args or fc[0][2] or log.index(rp[0]) > log.index(fc[0]):
+            bad.append('for a %s constructor call the wrapped constructor is %s' % (shape, 'not called once with the arguments as given, inside the error context'))
+        elif r != 'RESULT':
+            bad.append('the result of the constructor is not handed back (%r)' % (r,))
+    if bad:
+        run.violation(rule, fi, 'rethrow_as_parsing_error', '; '.join(bad[:2]))
+    else:
+        run.ok(rule, fi, 'constructor decorator: error context carries the YAML node for both call shapes; arguments and result pass through')
+
+
+def relative_import_calls(repo, run, rule):
+    """every importlib.import_module call with a relative module name (leading dot) names the package it is relative to - without
+    it the call raises TypeError whenever it is reached (the node classes behind some tags are imported this way, on first use)"""
+    n = 0
+    for fi in repo.all_functions(include_nested=True):
+        for c in ast.walk(fi.node):
+            if isinstance(c, ast.Call) and norm(c.func) in ('importlib.import_module', 'import_module') and c.args and isinstance(c.args[0], ast.Constant) and isinstance(c.args[0].value, str) \
+                    and c.args[0].value.startswith('.'):
+                n += 1
+                pk = c.args[1] if len(c.args) > 1 else next((k.value for k in c.keywords if k.arg == 'package'), None)
+                if pk is None or (isinstance(pk, ast.Constant) and pk.value is None):
+                    run.violation(rule, fi, norm(c)[:80], 'relative import %r without a package: importlib raises TypeError when the call is reached (the tag that needs this module cannot be parsed)' % c.args[0].value, node=c)
+                else:
+                    run.ok(rule, (fi.file, c.lineno, fi.qualname), norm(c)[:80], 'relative to %s' % norm(pk)[:40])
+    if n == 0:
+        run.info(rule, ('awesomeyaml', 0, '<package>'), 'relative import_module calls', 'none in the package')
 
 
 def tag_spec(repo, run, rule, tags):
